@@ -2,7 +2,7 @@
 import ast
 
 from ..loader import AnalysisError, attr_path, src, walk_no_nested_defs, walk_code, possible_strings, norm_stmt, call_name
-from ..symx import SymX, classify, show, C, TRUE, FALSE, simp, mk_mul, mk_add, negate, UNBOUND, is_const, mentions, strip_perm
+from ..symx import SymX, classify, show, C, TRUE, FALSE, simp, mk_mul, mk_add, negate, UNBOUND, is_const, mentions, strip_perm, is_term
 from ..nf import SELF_NEXT, SF
 from . import kernels as K
 from . import C07, shared
@@ -204,7 +204,7 @@ def _all_terms(sx):
 
     def walk(t):
         if isinstance(t, tuple):
-            if t and isinstance(t[0], str):
+            if is_term(t):
                 seen.append(t)
             for x in t:
                 walk(x)
@@ -307,7 +307,7 @@ def _subterms(t):
 
     def walk(x):
         if isinstance(x, tuple):
-            if x and isinstance(x[0], str):
+            if is_term(x):
                 out.append(x)
             for y in x:
                 walk(y)
